@@ -7,6 +7,8 @@ TRUSTED_BASE = [
     "Rust std character classes (is_alphanumeric, is_whitespace) are sent by the harness with every character",
 ]
 
+EVAL_ASSUME = ['library hypotheses (modelled, not verified; compared with the real libraries by K7 on every run): var_pre/pre = one asynchronous step, FixedPoints::symbolic = dead ends of the unit, attractor computation = terminal SCCs, BDD and/exists/iff = point-wise definitions', 'the theorems are about the cache-free evaluator evalPure; the real eval_node (cache, counters, shortcuts) is tied to it by running both models and the implementation on the same inputs (requests `eval …` and `eval pure_…`)', 'formulae are preprocessed (variables named by nesting depth): hypothesis WellNamed/WellScoped of the theorems; K4 + C07 tie preprocessing to it']
+
 PROPS = {
     "C05": {
         "module": "HctlProofs.Props.C05",
@@ -33,8 +35,92 @@ PROPS = {
             "the lexer model is the code's tokenizer: checked by K1 on every run (not proved against a lexical spec)",
         ],
     },
-}
 
+    "C01": {
+        "module": "HctlProofs.Props.C01",
+        "theorems": ["Hctl.C01.model_check_correct", "Hctl.C01.invalid_colour_excluded", "Hctl.evalPure_correct",
+                     "Hctl.C01.sat_EX", "Hctl.C01.sat_EG", "Hctl.C01.sat_AU", "Hctl.C01.sat_bind", "Hctl.C01.sat_jump",
+                     "Hctl.C01.steady_selfloop"],
+        "ks": ["k7"],
+        "spec_tied": ["k7:pure_"],
+        "full": False,
+        "not_proved": "the entry points run eval_node with the sub-formula cache; its equality with the cache-free evaluator "
+                      "(proved correct here) is the subject of C04 and is otherwise tied by correspondence",
+        "rule": "K7: 14 small networks (1-3 variables, 1-64 colours, constrained and unconstrained regulations) exported as explicit "
+                "Kripke families x k=0..3 x random batches of 1-3 well-scoped formulae over all operators; results compared "
+                "point-wise (every state x colour incl. invalid x valuation); non-trivial = result neither empty nor full",
+        "assumptions": EVAL_ASSUME,
+    },
+    "C02": {
+        "module": "HctlProofs.Props.C02",
+        "theorems": ["Hctl.C02.extended_correct", "Hctl.C02.sat_wild", "Hctl.C02.sat_bind_dom", "Hctl.C02.sat_exists_dom",
+                     "Hctl.C02.sat_forall_dom", "Hctl.C02.exists_empty_dom", "Hctl.C02.forall_empty_dom",
+                     "Hctl.C02.readme_equiv_1", "Hctl.C02.readme_equiv_2", "Hctl.C02.readme_equiv_3",
+                     "Hctl.C02.readme_equiv_2_gen", "Hctl.C02.readme_equiv_3_gen"],
+        "ks": ["o02", "k7"],
+        "spec_tied": ["k7:pure_", "o02:pure_"],
+        "full": False,
+        "not_proved": "as C01: eval_node's cache is tied to the proved evaluator by correspondence (and C04)",
+        "rule": "O02: the three README equivalences (and their general forms) with random bodies and context sets that are empty / "
+                "full / colour-dependent / empty for some colours only, through the public API; K7 extended leg",
+        "assumptions": EVAL_ASSUME + ["context sets are inside the unit set and independent of the spare variables (CtxOK); "
+                                       "the harness generates such sets"],
+    },
+    "C03": {
+        "module": "HctlProofs.Props.C03",
+        "theorems": ["Hctl.C03.eval_subset_unit", "Hctl.C03.result_colours_valid", "Hctl.C03.counts_le",
+                     "Hctl.C03.closed_indep_spare"],
+        "ks": ["k7"],
+        "spec_tied": ["k7:pure_"],
+        "full": False,
+        "not_proved": "as C01: statements are about the cache-free evaluator; eval_node tied by correspondence",
+        "rule": "K7 on networks whose regulation constraints exclude colours; oracle on the raw result bits: no point with an "
+                "invalid colour, no dependence on the spare variables",
+        "assumptions": EVAL_ASSUME,
+    },
+    "C13": {
+        "module": "HctlProofs.Props.C13",
+        "theorems": ["Hctl.C13.ew_correct", "Hctl.C13.aw_correct", "Hctl.C13.ew_eq_eu_or_eg", "Hctl.C13.aw_eq_not_eu",
+                     "Hctl.C13.psi_imp_ew", "Hctl.C13.psi_imp_aw", "Hctl.C13.weak_until_dual"],
+        "ks": ["o13"],
+        "spec_tied": ["o13:pure_"],
+        "full": True,
+        "rule": "O13: random operand formulae on all small networks; the defining equivalences evaluated through the tool itself",
+        "assumptions": EVAL_ASSUME,
+    },
+    "C15": {
+        "module": "HctlProofs.Props.C15",
+        "theorems": ["Hctl.C15.k_irrelevant", "Hctl.C15.sanitize_succeeds", "Hctl.C15.sanitize_eq_raw"],
+        "ks": ["o15"],
+        "spec_tied": ["o15:pure_"],
+        "full": False,
+        "not_proved": "stated for plain formulae and the cache-free evaluator; `transfer_from` of lib-param-bn is modelled as "
+                      "'fails iff the set depends on a spare variable'",
+        "rule": "O15: closed formulae x k = depth..depth+2; raw vs sanitised; comparison with SymbolicAsyncGraph::new",
+        "assumptions": EVAL_ASSUME,
+    },
+    "C18": {
+        "module": "HctlProofs.Props.C18",
+        "theorems": ["Hctl.C18.unsafe_ex_eq", "Hctl.C18.unsafe_ex_eq_pure", "Hctl.C18.no_steady_eq",
+                     "Hctl.C18.fixedPoint_pattern_excluded"],
+        "ks": ["o18"],
+        "spec_tied": ["o18:pure_"],
+        "full": True,
+        "rule": "O18: formulae of the fragment on all networks; arbitrary formulae on the networks without steady states",
+        "assumptions": EVAL_ASSUME,
+    },
+    "C20": {
+        "module": "HctlProofs.Props.C20",
+        "theorems": ["Hctl.C20.colour_slice_eq", "Hctl.C20.sat_colourwise", "Hctl.C20.slice_independent_of_other_colours"],
+        "ks": ["o20"],
+        "spec_tied": ["o20:pure_"],
+        "full": False,
+        "not_proved": "that pick_witness yields a network whose single colour has the transitions of the chosen colour "
+                      "(hypothesis AgreeCol) is a library property, exercised by O20",
+        "rule": "O20: every valid colour of every parametrised small network x closed formulae; slice vs pick_witness network",
+        "assumptions": EVAL_ASSUME,
+    },
+}
 # what MANIFEST.json says per property
 MANIFEST_TEXT = {
     "C05": {
@@ -48,6 +134,35 @@ MANIFEST_TEXT = {
         "technique": "Lean 4 proof (parser = grammar, by induction on fuel / derivations) + differential correspondence check",
     },
 }
+
+def _ev(text, note=None, tech=None):
+    return {
+        "text": text,
+        "note": note or ("Trusted: Lean kernel, axioms {propext, Classical.choice, Quot.sound}, the correspondence harness. Modelled, "
+                         "not verified: the BDD/graph/attractor libraries (their assumed behaviour is compared with the real "
+                         "libraries on small graphs on every run). Theorems are about the model's cache-free evaluator; eval_node "
+                         "is tied to it by correspondence."),
+        "technique": tech or "Lean 4 proof (structural + fixed-point induction against a path semantics) + differential correspondence check",
+    }
+
+MANIFEST_TEXT.update({
+    "C01": _ev("Lean 4 theorem evalPure_correct: on every graph (any number of states/colours), for every well-named formula, the "
+               "evaluator returns exactly the points of the unit set whose state satisfies the formula under a path-based reference "
+               "semantics (self-loops on steady states); the model's evaluator (with and without cache) is compared point-wise with "
+               "/repo on explicit small Kripke families on every run."),
+    "C02": _ev("Same theorem for extended formulae (wild-cards, restricted domains incl. colour-dependent/empty/nested), plus Lean proofs "
+               "of the three README equivalences for every body formula; oracle runs the equivalences through the public API."),
+    "C03": _ev("Lean theorems: every evaluated set is inside the current unit set (hence valid colours only, counts bounded), and the raw "
+               "result of a closed formula is independent of the spare variables; oracle checks both on the implementation's raw BDDs."),
+    "C13": _ev("Lean theorems: eval_ew/eval_aw denote exactly weak until on paths; EW = EU or EG; psi implies both; the defining "
+               "equivalences are also evaluated through the tool."),
+    "C15": _ev("Lean theorems: for closed plain formulae the result is independent of the number of spare variable sets and sanitising "
+               "succeeds and equals the raw (state, colour) set; oracle compares raw/sanitised/k-variants and SymbolicAsyncGraph::new."),
+    "C18": _ev("Lean theorems: on the fragment, eval_node with steady set empty is literally equal to standard eval_node (any cache state); "
+               "without steady states both compute the satisfying points."),
+    "C20": _ev("Lean theorem: satisfaction at a colour mentions only that colour's transition system, hence colour slices agree between "
+               "graphs agreeing on that colour; oracle compares every valid colour's slice with the pick_witness network."),
+})
 
 ALL_IDS = ["C%02d" % i for i in range(1, 21)]
 NOT_APPLICABLE = [
